@@ -1,4 +1,4 @@
-HOOK_COMMITS = []
+HOOK_COMMITS = ["a1f4396"]
 NOT_APPLICABLE = {}
 TEXT = {
     "C02": {
@@ -45,5 +45,15 @@ TEXT = {
         "technique": "stateful property testing (rapid): generated (dt, offset, weight) histories with external epoch changes drive the real Pll against a recording fake clock; oracle = statement-level predicates on every Step/Adjust call",
         "level": "Generated search over histories of up to 60 updates with boundary time steps (2 s, 6 s +-1 ns), offsets around +-1 ms and over the whole int64 range, weights around 3/50/150 and +Inf. Exploration.",
         "note": "Gaps between updates are bounded by 1e5 s (a ~292-year gap overflows the duration conversion; recorded as out of scope). MinInt64 offsets are exempt from 'by exactly the offset'.",
+    },
+    "C06": {
+        "technique": "model-based stateful property testing (rapid state machine) of the real request handler and transmit-timestamp update through the verif hooks, with a registered fake clock; oracle = history model independent of the store's replacement policy, checked against a pre-call snapshot of the real store",
+        "level": "Generated search over request/update histories of 2..5 clients (request kinds, colliding/decreasing receive times, clock before/at/after the receive time, delayed/lost/early kernel timestamps, 2036 era base). Exploration: ~10^5 steps quick, ~10^7 thorough.",
+        "note": "Layer 1 (handler) only reaches the code through core/server/hooks_verif.go (build tag verif, add-only). Updates for an exchange whose (client, rx) key was later reused are not issued. Found and repaired: txt <= rxt recorded when the clock reads earlier than the receive time (fix 3015780).",
+    },
+    "C07": {
+        "technique": "stateful property testing (rapid) of structural store invariants via a read-only snapshot hook; model-based eviction test at the real 2^20 capacity; concurrent batches under the race detector with porcupine linearizability checking against a nondeterministic sequential model",
+        "level": "Generated search over histories with up to 200 clients (structure), one to several complete fills of 2^20 clients followed by thousands of boundary steps (capacity), and hundreds to thousands of concurrent batches of 8/16 goroutines (-race + porcupine). Exploration; schedules are those the Go runtime produces with generated yields - not enumerated.",
+        "note": "Ranking order is the implementation's plain (seconds, fraction) timestamp order, as the statement says. Data-race freedom is the race detector's verdict on the executed schedules only.",
     },
 }
